@@ -230,7 +230,7 @@ def run(ctx):
                 mine = (pid == "C07") == (call["action"] == "set")
                 if not mine: continue
                 ncalls += 1
-                feat = feature(c["type"], call["path"])
+                feat = feature(c["type"], call["path"]) + ("/after-buffer-growth" if call.get("phase") == "after-growth" else "")
                 if "exc" in call:
                     note("%s/calling-%s-raises-%s/%s" % (pid, call["action"], call["exc"], feat), "%s%s: %s" % (call["name"], call["idx"], call.get("msg")), i, call)
                 elif call["c"] != call["py"]:
